@@ -7,6 +7,7 @@
                        -> ACC B <main>:<items>;... R <t>=<res>,... I <keys> | REJECT <i>
    K <bits>            SetReferrersCapability sequence -> K <state>/<err>,...
    X <sg> <init> <changes> <ev> ...  exchanges of an end-to-end run on one tag -> ACC R .. I .. | REJECT <i>
+   L <art> <list|none>  Referrers() by tag schema on the final index -> L <keys>
    T <d:m:z,...>       buildReferrersTag on subject descriptors (digest:mediatype:size, interned) -> T <class,...>
    D <kind> <art> <cfg>  indexReferrersForPush artifact type -> D <type>
    E <n>               end-to-end run (judged by the oracle)   -> E <n>
@@ -27,12 +28,13 @@ let show_list (l : desc list) = if l = [] then "-" else String.concat "," (List.
 let dash s = if s = "" then "-" else s
 let show_res = function ROk -> "ok" | RIdxDel -> "idxdel" | RErr -> "err"
 
-(* a visible schedule (G<t> | P<t>:<f> | U<t>:<f> | D<t>:<f>) is replayed by the extracted
+(* a visible schedule (G<t> | P<t>:<f> | U<t>:<f> | D<t>:<f> | E = tag dropped externally) is replayed by the extracted
    vis_summary (Model/Merge.v): the hidden lock regions are inserted there, not here *)
 let parse_vis (ev : string) : vis =
   let rest = String.sub ev 1 (String.length ev - 1) in
   match ev.[0] with
   | 'G' -> VG (nat_of_int (int_of_string rest))
+  | 'E' -> VX
   | k ->
     let t, f = (match String.split_on_char ':' rest with
                 | [a; b] -> nat_of_int (int_of_string a), b = "1" | _ -> failwith "ev") in
@@ -48,7 +50,7 @@ let run_m (n : int) (evs : string list) : string =
   let changes = List.init n (fun t -> Add { dkey = n_of_int (t + 1); dart = N0; dpay = N0 }) in
   match vis_summary false None changes (List.map parse_vis evs) with
   | None -> "REJECT"
-  | Some ((rs, idx), log) ->
+  | Some (((rs, idx), log), _) ->
     let batches = List.filter_map (function OBatch (m, ms) -> Some (Printf.sprintf "%d:%s" (int_of_nat m) (tids ms)) | _ -> None) log in
     let keys = match idx with None -> [] | Some l -> List.sort compare (List.map (fun k -> int_of_n k - 1) l) in
     Printf.sprintf "ACC B %s R %s I %s" (dash (String.concat ";" batches)) (show_results rs)
@@ -56,16 +58,21 @@ let run_m (n : int) (evs : string list) : string =
 
 (* X <skipgc> <init> <changes> <ev> ...: the exchanges of an end-to-end run on one
    referrers tag; caller i passes the i-th change *)
-let run_x (sg : bool) (init0 : string) (changes : change list) (evs : string list) : string =
+let run_x ?(cmp_dangling = true) (sg : bool) (init0 : string) (changes : change list) (evs : string list) : string =
   let r0 = if init0 = "none" then None else Some (List.map (fun k -> { dkey = n_of_int (int_of_string k); dart = N0; dpay = N0 })
                                                   (if init0 = "-" then [] else String.split_on_char ',' init0)) in
   match vis_summary sg r0 changes (List.map parse_vis evs) with
   | None -> "REJECT"
-  | Some ((rs, idx), log) ->
+  | Some (((rs, idx), log), dg) ->
     let keys l = if l = [] then "-" else String.concat "," (List.map (fun k -> string_of_int (int_of_n k)) l) in
     let puts = List.filter_map (function OPut (_, nw) -> Some (if nw = [] then "e" else keys (List.map (fun d -> d.dkey) nw)) | _ -> None) log in
-    Printf.sprintf "ACC R %s I %s U %s" (show_results rs)
+    let hidden = List.map (fun c -> int_of_n (match c with Add d -> d.dpay | Remove d -> d.dpay) = 9) changes in
+    let rs_s = String.concat "," (List.mapi (fun t r ->
+      if List.nth hidden t then Printf.sprintf "%d=*" t
+      else match r with Some r -> Printf.sprintf "%d=%s" t (show_res r) | None -> Printf.sprintf "%d=pending" t) rs) in
+    Printf.sprintf "ACC R %s I %s U %s G %s" rs_s
       (match idx with None -> "none" | Some l -> keys l) (dash (String.concat ";" puts))
+      (if cmp_dangling then string_of_int (int_of_nat dg) else "*")
 
 let cap_num = function CapUnknown -> 0 | CapSupported -> 1 | CapUnsupported -> 2
 
@@ -83,12 +90,18 @@ let () =
     | id :: "M" :: n :: evs -> Printf.printf "%s %s\n" id (run_m (int_of_string n) evs)
     | id :: "X" :: sg :: init0 :: cs :: evs ->
       let evs = List.filter (fun e -> e.[0] <> 'J') evs in   (* J<hex>: the replay of the end-to-end case *)
-      Printf.printf "%s %s\n" id (run_x (sg = "1") init0 (parse_changes cs) evs)
+      if List.exists (fun e -> String.length e > 2 && String.sub e (String.length e - 2) 2 = ":2") evs
+      then Printf.printf "%s UNJUDGED response lost after effect\n" id else
+      Printf.printf "%s %s\n" id (run_x ~cmp_dangling:(String.length sg = 1) (sg.[0] = '1') init0 (parse_changes cs) evs)
     | [id; "K"; bits] ->
       let bs = List.init (String.length bits) (fun i -> bits.[i] = '1') in
       let rs = set_caps CapUnknown bs in
       Printf.printf "%s K %s\n" id
         (String.concat "," (List.map (fun (s, e) -> Printf.sprintf "%d/%d" (cap_num s) (if e then 1 else 0)) rs))
+    | [id; "L"; a; l] ->
+      let r = if l = "none" then None else Some (parse_list l) in
+      let out = list_referrers r (n_of_int (int_of_string a)) in
+      Printf.printf "%s L %s\n" id (if out = [] then "-" else String.concat "," (List.map (fun d -> string_of_int (int_of_n d.dkey)) out))
     | [id; "T"; l] ->
       let ds = List.map (fun x -> match String.split_on_char ':' x with
           | [d; m; z] -> { s_mt = n_of_int (int_of_string m); s_digest = n_of_int (int_of_string d); s_size = n_of_int (int_of_string z) }
@@ -98,5 +111,6 @@ let () =
       let kind = (match k with "artifact" -> KArtifact | "index" -> KIndex | _ -> KImage) in
       Printf.printf "%s D %d\n" id (int_of_n (referrer_art kind (n_of_int (int_of_string a)) (n_of_int (int_of_string c))))
     | [id; "E"; n] -> Printf.printf "%s E %s\n" id n
+    | [id; "S"; n] -> Printf.printf "%s S %s\n" id n
     | [] -> ()
     | _ -> Printf.printf "BADLINE %s\n" l)
